@@ -27,6 +27,12 @@ def build(m):
         kd = m["kind"]
         if kd == "fcn":
             return M.FCN(i, o, hidden=(5, 4))
+        if kd == "fcn_relun":      # the library's relu^n activation with a different n in every layer
+            return M.FCN(i, o, hidden=(5, 4), activations=[M.ReLUn(2), M.ReLUn(3)])
+        if kd == "fcn_adaptive":
+            return M.FCN(i, o, hidden=(5, 4), activations=[M.AdaptiveActivationFunction(torch.nn.Tanh(), inital_a=0.5, scaling=2.0), M.ReLUn(2)])
+        if kd == "fcn_sinus":
+            return M.FCN(i, o, hidden=(4, 4), activations=M.Sinus())
         if kd == "harmonic":
             return M.Harmonic_FCN(i, o, max_frequenz=2, hidden=(5,))
         if kd == "poly":
@@ -121,6 +127,31 @@ def run_one(s):
         flat = out.as_tensor.reshape(len(rb), -1)
         rec["obs"] = [{"rid": rid, "out": fxrow(flat[i])} for i, rid in enumerate(rb)]
     tr["pres"].append(rec)
+    # history in the process: unrelated models (other hyper-parameters of the same building blocks) are constructed and evaluated,
+    # then the model under observation sees the first presentation again: same rows, same outputs
+    if s["pres"]:
+        pr = s["pres"][0]
+        rec = {"order": pr["order"], "rows": pr["rows"], "axes": pr["axes"], "drop": pr["drop"], "exc": "", "obs": [], "parts_ok": True, "outsp": []}
+        if not pr["drop"]:
+            def after_others():
+                M = tp.models
+                sx, su = Space({"x": 2}), Space({"u": 1})
+                px = Points(torch.tensor([[0.5, -1.0], [2.0, 1.0]]), sx)
+                with torch.no_grad():
+                    for other in (M.FCN(sx, su, hidden=(3,), activations=M.ReLUn(4)), M.FCN(sx, su, hidden=(3,), activations=M.AdaptiveActivationFunction(torch.nn.Tanh(), 2.0)),
+                                  M.Harmonic_FCN(sx, su, max_frequenz=3, hidden=(3,)), M.Polynomial_FCN(sx, su, polynomial_degree=3, hidden=(2,)),
+                                  M.QRES(sx, su, hidden=(3,)), M.DeepRitzNet(sx, su, width=3, depth=1)):
+                        other(px)
+                    return model(present(pr["order"], pr["rows"], pr["axes"]))
+            r = watched(after_others)
+            if r[0] != "ok":
+                rec["exc"] = r[1] if len(r) > 1 else "hang"
+            else:
+                out = r[1]
+                rec["outsp"] = sp_list(out.space)
+                flat = out.as_tensor.reshape(len(pr["rows"]), -1)
+                rec["obs"] = [{"rid": rid, "out": fxrow(flat[i])} for i, rid in enumerate(pr["rows"])]
+            tr["pres"].append(rec)
     return tr
 
 
